@@ -31,6 +31,7 @@ type Op struct {
 	GRel     bool     `json:"grel,omitempty"`  // instantiation whose first type parameter is the relation type
 	GWithRel bool     `json:"gwr,omitempty"`   // map constructed with a relation argument
 	Probe    string   `json:"probe,omitempty"` // out-of-range index call made on the returned query before it is consumed
+	Wrap     *Ent     `json:"wrap,omitempty"`  // the registered filter is wrapped in a RelationFilter with this target
 }
 
 // LsnSpec describes a listener to install.
